@@ -134,6 +134,10 @@ Proof.
   field. split; intro E; [rewrite E in Hpos|rewrite E in HT]; apply (Qlt_irrefl 0); assumption.
 Qed.
 
+(* one chosen alternative passed as an array: the two branches of the helper agree *)
+Theorem gen_distortion_arr_singleton c V : gen_distortion_arr [c] V = gen_distortion_int c V.
+Proof. reflexivity. Qed.
+
 (* non-vacuity: alternatives 2 and 3 passed; 2 is the worse one (welfare 1/2 against 1/2 .. 3/4) *)
 Example gen_distortion_arr_example :
   gen_distortion_arr [3; 2]%nat [[Some (1 # 2); Some (1 # 4); None]; [Some (1 # 4); Some (1 # 4); Some (1 # 2)]] == 3 # 2.
@@ -164,3 +168,4 @@ Print Assumptions aminQ_scale.
 Print Assumptions aminQ_fold_le.
 Print Assumptions aminQ_le.
 Print Assumptions gen_distortion_arr_is_worst_welfare_ratio.
+Print Assumptions gen_distortion_arr_singleton.
